@@ -60,7 +60,49 @@ P = property predicate checked there, M = also compared with the model; [new] = 
                                              gambit.query.query_parse(parse_kw=concurrency/max_workers/executor) -- P on the
                                              printed rows / result items (row i = distances of file i's signature)
   not driven: gambit tree (same call as dist -s; its output is a tree, judged by C17); executors that break the
-  concurrent.futures contract (duplicate / never-finishing futures: excluded by ASSUMPTIONS)."""
+  concurrent.futures contract (duplicate / never-finishing futures: excluded by ASSUMPTIONS).
+
+State and aliasing (audit of what can outlive ONE call; kind `seq` = a script of 2-8 calls over shared objects):
+  entry points: calc_file_signatures(kspec, files, progress, concurrency, max_workers, executor); calc_file_signature(kspec,
+  seqfile, accumulator=) (the "single-file result"); gambit signatures create / dist / query (in process); gambit.query.
+  query_parse(db, files, params, file_labels=, parse_kw=, progress=).
+  dimensions: (a) reused across calls whose other arguments differ, both orders  (b) caller's object unmodified after every
+  call  (c) a call that fails part-way, then good calls on the same thread and objects  (d) same call twice, same result
+  (e) second thread / after fork.   "old" = covered before the audit, by which stream; everything else is kind seq.
+  object (owner, lifetime)                        (a)                            (b)                 (c)                    (d)   (e)
+  files: the caller's list/tuple/deque/Sequence   lists A,B,C (other size, other  length, element      bad file in the middle  twice helper/fresh
+    and its SequenceFile elements (frozen attrs)  order, shared elements) x two   identity, path/      (C); container raising  flag  thread;
+    -- old: one rotated/reversed second batch     k-mer specs x every mode        format/compression  at element j, once            processes =
+       through a supplied executor (pool, var)                                    + size/mtime on disk (FaultyList)                  after fork
+  the FILE behind a path (caller may rewrite it   rewrite steps: mut0/mut1 get     --                  variant 'bad' (fails    yes   yes
+    between calls): any memo keyed by path        other content/size, unreadable,                     late), 'gone', back
+                                                  back again; all entry points                        to readable
+  kspec: the caller's KmerSpec (frozen attrs)     k0/k1 objects x lists, both      all 7 fields        yes                     yes   yes
+                                                  orders (also k>11: set acc.)
+  executor: caller-supplied pool (threads w=1..3, lists x k-mer specs through ONE  still accepts jobs  bad file; submit()      yes   calls from two
+    processes w=1..2, synchronous), open for the  executor; also named in a        (next step runs     refusing job j, once;         threads, one after
+    whole case -- worker threads keep thread-     parse_kw dict of query_parse     through it)         meter raising at j            the other (at once: old)
+    locals, worker processes keep module globals
+    -- old: second batch, busy/shared pool (var)
+  progress: ProgressConfig (kw dict), meter class one shared ProgressConfig over   callable identity,  meter.increment raises  yes   yes
+    / factory; gambit.util.progress.REGISTRY      all calls of a case              kw dict, REGISTRY   at step j, once
+  result: the SignatureList / arrays handed back  overwritten in place and         --                  --                      twice --
+    (the caller's; MutableSequence)               emptied after every step: no
+                                                  later result may share storage
+  accumulator= of calc_file_signature             a0/a1 over several files         DOCUMENTED to       fresh-accumulator calls       helper
+    (caller-supplied, documented to collect)      between batches                  collect: judged as  and batches in between
+                                                                                   "union so far"
+  parse_kw dict, file_labels list, db object      one dict / list / database over  shallow compare     unreadable file in a    --    main thread
+    (query_parse)                                 lists of other size, both        (skips exactly the  batch, then good batch        only (the db
+    -- old: db object reused by all qparse cases  orders; dict names concurrency / known 'progress'                                  holds an SQLite
+                                                  max_workers / an executor        key, see below)                                   session)
+  module / process state of gambit.sigs.calc,     API calls interleaved with the   pool classes, cwd,  every kind of failure   yes   fork after the
+    gambit.cli.*, click context; cwd; thread-     in-process commands (signatures  REGISTRY compared   above, then in-process        parent made
+    locals of the calling thread                  create, dist --square, query)    after every step    commands                      calls
+  Found in the unchanged code: query_parse adds a 'progress' entry to the CALLER's parse_kw dict (setdefault on the
+  argument); a later call with the same dict and another progress= reports parsing to the FIRST call's meter settings.  The
+  signatures are unaffected, so it is counted (seq:skipped-known-...), not reported; fix proposed in
+  repo_fixes/C13-parse-kw-not-modified.diff."""
 import gzip
 import itertools
 import os
@@ -80,18 +122,27 @@ RULE = ('sched: (files, chosen completion order sigma, path supplied|threads|pro
         'exception, plus a second batch / a concurrent second call through a caller-supplied executor; non-trivial: >=2 files with '
         'distinct signatures.  entry: gambit dist / gambit query / query_parse on genome files -> row i must be the distances of '
         'file i\'s single-file signature (reference family with pairwise different distances), failure iff a file is unreadable; '
-        'non-trivial: >=2 distinct query files')
+        'non-trivial: >=2 distinct query files.  seq: a script of 2-8 steps (calc_file_signatures / calc_file_signature / signatures create / '
+        'dist / query / query_parse / rewrite a file) over shared caller objects (file lists, KmerSpecs, executors, ProgressConfig, parse_kw, '
+        'accumulators) -> per step the result list or exception judged against the harness\'s reference signatures of what the files hold '
+        'at that moment, caller objects unchanged, repeated call = same result; non-trivial: >=2 judged calls, one of them on >=2 distinct files')
 TRUSTED = ['concurrent.futures (Future, as_completed, ThreadPoolExecutor, ProcessPoolExecutor) is runtime: modelled as '
            '"submit returns a fresh future; future.result() returns/re-raises the job\'s outcome; as_completed yields every '
            'future once, in any order" -- the harness executor realises exactly this contract with a chosen order',
            'Biopython FASTA parsing / gzip / open(): which exception an unreadable file raises is taken from the '
            'harness table and cross-checked against calc_file_signature on that file alone',
-           'harness-side controller thread + progress-meter stepping (makes the consumption order equal to sigma)']
+           'harness-side controller thread + progress-meter stepping (makes the consumption order equal to sigma)',
+           'kind seq: the harness\'s snapshot of the caller-owned objects (length / element identity / attrs fields / dict items / size+mtime '
+           'of the input files) is what "unmodified" means; a violation seen in the shared campaign process is re-run alone in a fresh '
+           'interpreter and marked as (not) self-contained']
 ASSUMPTIONS = ['executor.submit returns a distinct Future per call (NoDup hypothesis of the theorems; asserted by the '
                'harness executor)',
                'as_completed yields each submitted future exactly once (Permutation hypothesis); for any other yield '
                'sequence C13_never_wrong_list still excludes a wrong list',
-               'files are not modified while the call runs; jobs are independent (calc_file_signature has no shared state)']
+               'files are not modified while the call runs; jobs are independent (calc_file_signature has no shared state) -- '
+               'kind seq rewrites files only BETWEEN calls, where the property still promises the single-file result of the file as it is now',
+               'kind seq: a result the caller received is the caller\'s to overwrite; an accumulator= argument is documented to collect; '
+               'query_parse is called from the thread that opened the database (SQLite sessions are thread-bound)']
 BATCH = 400
 SHRINK = False     # cases are generated smallest-first; generic list shrinking would break "sigma is a permutation"
 
@@ -197,6 +248,7 @@ def _file_table():
 	with open(files['truncgz']['path'], 'wb') as f:
 		f.write(gzip.compress(b'>a\nATGGGGGGGGGGATCCCCCCCCCC\n' * 200)[:60])
 	_more_files(d, files)
+	_mut_files(d, files)
 	_S['files'] = files
 	_S['dir'] = d
 	return files
@@ -281,6 +333,58 @@ def _more_files(d, files):
 
 
 XBAD = ['late', 'latebig', 'badcrc', 'longname', 'loop', 'dangling', 'badfastq', 'gbasfa', 'badfmt', 'badcomp', 'strelem', 'noneelem']
+
+#: files whose CONTENT changes between the steps of a sequence case (kind seq): same path, same SequenceFile
+#: object, other content / size / readability.  Only kind seq names them.
+MUT = ['mut0', 'mut1']
+#: variants: 0..3 readable FASTA of different sizes; 'bad' = three good records, then an undecodable byte (the
+#: single-file call fails part-way through the file); 'gone' = the file is removed
+MUT_VARIANTS = [0, 1, 2, 3, 'bad', 'gone']
+
+
+def _mut_files(d, files):
+	for name in MUT:
+		files[name] = dict(path=os.path.join(d, name + '.fa'), format='fasta', compression=None, ref=None, code=None, size=0, mutable=True, id=name)
+
+
+def _mut_variant(name, v):
+	"""-> dict(data bytes | None, seqs | None, code): deterministic in (name, v), so a replay sees the same content"""
+	cache = _S.setdefault('mutv', {})
+	if (name, v) not in cache:
+		rng = random.Random(f'{POOL_SEED}/{name}/{v}')
+
+		def rseq(n):
+			return ''.join(rng.choice('ACGT') for _ in range(n))
+
+		def text(seqs):
+			return ''.join(f'>m{i} {name} v{v}\n' + '\n'.join(s[j:j + 60] for j in range(0, len(s), 60)) + '\n' for i, s in enumerate(seqs))
+		if v == 'gone':
+			cache[name, v] = dict(data=None, seqs=None, code=1, exc='FileNotFoundError')
+		elif v == 'bad':
+			cache[name, v] = dict(data=text([rseq(400), rseq(400), rseq(400)]).encode() + b'>z\nACGT\xff\xfe\n', seqs=None, code=3, exc='UnicodeDecodeError')
+		else:
+			seqs = [rseq(n) for n in ([300, 120], [900, 500, 200], [150], [2500, 60])[int(v)]]
+			cache[name, v] = dict(data=text(seqs).encode(), seqs=seqs, code=None, exc=None)
+	return cache[name, v]
+
+
+def _mut_write(name, v):
+	path = _file_table()[name]['path']
+	data = _mut_variant(name, v)['data']
+	if data is None:
+		if os.path.exists(path):
+			os.remove(path)
+		return
+	with open(path, 'wb') as f:
+		f.write(data)
+
+
+def _mut_ref(name, v, ks=None):
+	cache = _S.setdefault('mutrefs', {})
+	if (name, v, ks) not in cache:
+		seqs = _mut_variant(name, v)['seqs']
+		cache[name, v, ks] = ref_signature(seqs) if ks is None else ref_signature(seqs, ks[0], ks[1])
+	return cache[name, v, ks]
 
 
 def _kspec(ks=None):
@@ -377,11 +481,14 @@ def _observe(call):
 		return ('done-unreadable', repr(e))
 
 
-def _predicate(fids, obs, may_refuse=False, ks=None, auto=False):
+def _predicate(fids, obs, may_refuse=False, ks=None, auto=False, singles=None):
 	"""the property on this input; returns None if it holds, else a description.
 	may_refuse: the call was made with arguments the function rejects (unknown concurrency string) --
-	raising is then fine, only a wrong list would be a violation"""
-	singles = [_single(f, ks, auto) for f in fids]
+	raising is then fine, only a wrong list would be a violation.
+	singles: the per-file results to compare with, if not the cached single-file calls (kind seq: files whose
+	content changes between the steps of a case)"""
+	if singles is None:
+		singles = [_single(f, ks, auto) for f in fids]
 	bad_names = {v for k, v in singles if k == 'err'}
 	if obs[0] == 'done':
 		if bad_names:
@@ -1391,6 +1498,44 @@ def _run_entry(case, n):
 			os.remove(out)
 
 
+def _entry_bad(what, q, refs, singles, obs):
+	"""the property on the output of an entry point other than calc_file_signatures: None if it holds, else a description.
+	singles: fid -> ('ok', signature) | ('err', ...)"""
+	allf = list(q) + list(refs or [])
+	unreadable = sorted(f for f in allf if singles[f][0] == 'err')
+	bad = None
+	if obs[0] == 'failed':
+		if not unreadable:
+			bad = f'failed ({obs[1]}) although every file is readable'
+	elif unreadable:
+		bad = f'produced a result although {unreadable} cannot be read'
+	else:
+		if what == 'dist':
+			cols = q if refs is None else refs
+			want = [[_dist(singles[a][1], singles[b][1]) for b in cols] for a in q]
+			tol = 6e-5      # 4 decimals are printed
+		else:
+			want = [[min(_dist(singles[a][1], _file_table()[r]['ref']) for r in DB_REFS)] for a in q]
+			tol = 2e-6
+		got = obs[1]
+		if len(got) != len(want):
+			bad = f'{len(got)} result rows for {len(want)} files'
+		else:
+			wrong = [i for i in range(len(want)) if len(got[i]) != len(want[i]) or any(abs(x - y) > tol for x, y in zip(got[i], want[i]))]
+			if wrong:
+				i = wrong[0]
+				src = [j for j in range(len(want)) if len(got[i]) == len(want[j]) and all(abs(x - y) <= tol for x, y in zip(got[i], want[j]))]
+				bad = (f'row {i} (file {q[i]}) does not hold the distances of that file\'s signature'
+				       + (f': it holds those of file {src[0]} ({q[src[0]]})' if src else '') + f'; rows wrong: {wrong[:6]}')
+			elif what != 'dist':
+				# a query file that is itself a reference genome must be matched to that genome
+				lab = obs[2]
+				off = [i for i, f in enumerate(q) if f in DB_REFS and lab[i] != f]
+				if off:
+					bad = f'result {off[0]} (file {q[off[0]]}) names {lab[off[0]]} as the closest genome'
+	return bad
+
+
 def k_entry(ctx, cases):
 	for n, case in enumerate(cases):
 		q, refs = case['files'], case.get('refs')
@@ -1403,43 +1548,583 @@ def k_entry(ctx, cases):
 		ctx.count('entry:' + what)
 		allf = list(q) + list(refs or [])
 		singles = {f: _single(f, None, auto) for f in allf}
-		unreadable = sorted(f for f in allf if singles[f][0] == 'err')
 		ctx.case(case, nontrivial=len(q) >= 2 and _distinct(q))
-		bad = None
-		if obs[0] == 'failed':
-			if not unreadable:
-				bad = f'failed ({obs[1]}) although every file is readable'
-		elif unreadable:
-			bad = f'produced a result although {unreadable} cannot be read'
-		else:
-			if what == 'dist':
-				cols = q if refs is None else refs
-				want = [[_dist(singles[a][1], singles[b][1]) for b in cols] for a in q]
-				tol = 6e-5      # 4 decimals are printed
-			else:
-				want = [[min(_dist(singles[a][1], _file_table()[r]['ref']) for r in DB_REFS)] for a in q]
-				tol = 2e-6
-			got = obs[1]
-			if len(got) != len(want):
-				bad = f'{len(got)} result rows for {len(want)} files'
-			else:
-				wrong = [i for i in range(len(want)) if len(got[i]) != len(want[i]) or any(abs(x - y) > tol for x, y in zip(got[i], want[i]))]
-				if wrong:
-					i = wrong[0]
-					src = [j for j in range(len(want)) if len(got[i]) == len(want[j]) and all(abs(x - y) <= tol for x, y in zip(got[i], want[j]))]
-					bad = (f'row {i} (file {q[i]}) does not hold the distances of that file\'s signature'
-					       + (f': it holds those of file {src[0]} ({q[src[0]]})' if src else '') + f'; rows wrong: {wrong[:6]}')
-				elif what != 'dist':
-					# a query file that is itself a reference genome must be matched to that genome
-					lab = obs[2]
-					off = [i for i, f in enumerate(q) if f in DB_REFS and lab[i] != f]
-					if off:
-						bad = f'result {off[0]} (file {q[off[0]]}) names {lab[off[0]]} as the closest genome'
+		bad = _entry_bad(what, q, refs, singles, obs)
 		if bad is not None:
 			ctx.violation('entry', case, f'{what} on {len(q)} files: {bad}', impl=obs, spec=[singles[f][0] for f in allf], files=_describe(allf))
 
 
-KINDS = {'sched': k_sched, 'pool': k_pool, 'cli': k_cli, 'var': k_var, 'entry': k_entry}
+# ------------------------------------------------------------------------------------------------
+# kind seq: a short script of calls over a small pool of SHARED, long-lived objects (statefulness and aliasing audit;
+# table "state and aliasing" in the module docstring).  case = dict(
+#   lists    name -> dict(files=[fid...], container=list|tuple|deque|seqclass)   the caller's file lists (built ONCE per case)
+#   kspecs   name -> None | [k, prefix]                                          the caller's KmerSpec objects
+#   execs    name -> dict(type=threads|processes|sync, workers=n)                the caller's executors (open for the whole case)
+#   pkw      name -> dict(concurrency=, max_workers=, executor=exec name)        the caller's parse_kw dicts (query_parse)
+#   accs     name -> kspec name                                                  the caller's k-mer accumulators
+#   steps    [step...]  executed in order, in ONE process, on the objects above:
+#     calc     list, ks, mode seq|threads|processes|default|sup (+ex), workers, progress, thread main|helper|fresh,
+#              twice (repeat the identical call), fault dict(kind=container|submit|meter, at=j) (an object the caller
+#              supplied raises part-way through the call, once)
+#     single   file, ks, acc (calc_file_signature, optionally into a caller-supplied accumulator)
+#     rewrite  file (mut0|mut1), v   the file at that path gets other content (MUT_VARIANTS)
+#     cli      list, ks, cores          gambit signatures create
+#     dist     list, cores              gambit dist --square
+#     query    list, cores              gambit query -f json
+#     qparse   list, pkw, labels        gambit.query.query_parse(db, list, parse_kw=<the shared dict>, file_labels=<shared list>) )
+# Every step is judged by the property predicate against the harness's own reference signatures of what the files hold AT
+# THAT MOMENT (and, inside the model's domain, compared with Model op 1303); after every step every caller-owned object
+# must be what it was before the step; a repeated call must return what the first returned; the result the caller got is
+# overwritten and emptied before the next step (it is the caller's: no later result may be the same storage).
+# ------------------------------------------------------------------------------------------------
+
+class HarnessFault(RuntimeError):
+	"""raised on purpose by an object the caller supplied (container / executor / progress meter)"""
+
+
+class FaultyList(ListLike):
+	"""a Sequence that can be armed to raise, once, when element `armed` is read"""
+
+	def __init__(self, items):
+		super().__init__(items)
+		self.armed = None
+
+	def _check(self, i):
+		if self.armed is not None and i == self.armed:
+			self.armed = None
+			raise HarnessFault(f'the caller\'s container fails at element {i}')
+
+	def __getitem__(self, i):
+		if isinstance(i, int):
+			self._check(i if i >= 0 else i + len(self._items))
+		return self._items[i]
+
+	def __iter__(self):
+		for i in range(len(self._items)):
+			self._check(i)
+			yield self._items[i]
+
+
+class SharedExecutor(Executor):
+	"""the caller's long-lived executor of a seq case: a real pool / SyncExecutor behind a thin wrapper that can be
+	armed to refuse, once, the j-th job of the next call"""
+
+	def __init__(self, inner):
+		self.inner = inner
+		self.armed = None
+		self.count = 0
+		self.shutdowns = 0
+
+	def arm(self, at):
+		self.armed, self.count = at, 0
+
+	def submit(self, fn, /, *args, **kwargs):
+		i = self.count
+		self.count += 1
+		if self.armed is not None and i == self.armed:
+			self.armed = None
+			raise HarnessFault(f'the caller\'s executor refuses job {i}')
+		return self.inner.submit(fn, *args, **kwargs)
+
+	def shutdown(self, wait=True, *, cancel_futures=False):
+		self.shutdowns += 1
+		self.inner.shutdown(wait=wait, cancel_futures=cancel_futures)
+
+
+def _faulty_meter(at):
+	"""progress factory whose meter raises, once, at its (at+1)-th increment"""
+	state = {'armed': True}
+
+	class Meter(_RecMeter):
+		def increment(self, delta=1):
+			self.n += delta
+			if state['armed'] and self.n > at:
+				state['armed'] = False
+				raise HarnessFault(f'the caller\'s progress meter fails at increment {at + 1}')
+	return Meter
+
+
+class _Helper:
+	"""a second, long-lived thread of the caller that runs some of the steps"""
+
+	def __init__(self):
+		import queue
+		self.q = queue.Queue()
+		self.t = threading.Thread(target=self._loop, daemon=True)
+		self.t.start()
+
+	def _loop(self):
+		while True:
+			job = self.q.get()
+			if job is None:
+				return
+			fn, box, ev = job
+			try:
+				box['r'] = fn()
+			except BaseException as e:     # noqa
+				box['e'] = e
+			ev.set()
+
+	def run(self, fn):
+		box, ev = {}, threading.Event()
+		self.q.put((fn, box, ev))
+		if not ev.wait(600):
+			raise RuntimeError('a step run in the helper thread did not return within 600 s')
+		if 'e' in box:
+			raise box['e']
+		return box['r']
+
+	def close(self):
+		self.q.put(None)
+		self.t.join(10)
+
+
+def _in_thread(where, helper, fn):
+	if where == 'helper':
+		return helper().run(fn)
+	if where == 'fresh':
+		box = {}
+
+		def run():
+			try:
+				box['r'] = fn()
+			except BaseException as e:     # noqa
+				box['e'] = e
+		t = threading.Thread(target=run, daemon=True)
+		t.start()
+		t.join(600)
+		if 'e' in box:
+			raise box['e']
+		if 'r' not in box:
+			raise RuntimeError('a step run in a fresh thread did not return within 600 s')
+		return box['r']
+	return fn()
+
+
+def _ksl(v):
+	return None if v is None or (int(v[0]), str(v[1])) == (K, PREFIX) else (int(v[0]), str(v[1]))
+
+
+def _observe_keep(call):
+	"""as _observe, and the raw result (the caller's own object) so that it can be overwritten afterwards"""
+	box = []
+
+	def keep():
+		box.append(call())
+		return box[0]
+	obs = _observe(keep)
+	return obs, (box[0] if box else None)
+
+
+def _scribble(res):
+	"""what a caller may do with the list it was given: overwrite the signatures in place, then empty the list"""
+	import numpy as np
+	try:
+		for a in list(res):
+			if isinstance(a, np.ndarray) and a.flags.writeable and a.size:
+				a[...] = np.iinfo(a.dtype).max if a.dtype.kind in 'ui' else 0
+		while len(res):
+			del res[len(res) - 1]
+	except Exception:     # noqa: an immutable result cannot be scribbled on, which is fine
+		pass
+
+
+def _items_of(obj):
+	return list(obj._items) if isinstance(obj, ListLike) else list(obj)
+
+
+def _kspec_fields(ks):
+	return (ks.k, bytes(ks.prefix), ks.prefix_str, ks.prefix_len, ks.total_len, ks.nkmers, str(ks.index_dtype))
+
+
+def _seq_snapshot(objs):
+	"""the observable state of everything the caller owns, and of the module-level state the entry points could touch"""
+	import gambit.sigs.calc as calc
+	from gambit.util import progress as gp
+	snap = {}
+	disk = {}
+	for name, (obj, elems) in objs['lists'].items():
+		items = _items_of(obj)
+		snap[f'file list {name}'] = (type(obj).__name__, len(items), [id(e) for e in items],
+		                             [(str(e.path), e.format, e.compression) if hasattr(e, 'path') else repr(e) for e in items])
+		for e in elems:
+			try:
+				st = os.stat(os.fspath(e))
+				disk[os.fspath(e)] = (st.st_size, st.st_mtime_ns)
+			except OSError:
+				disk[os.fspath(e)] = None
+	snap['input files on disk'] = disk
+	for name, ks in objs['kspecs'].items():
+		snap[f'KmerSpec {name}'] = _kspec_fields(ks)
+	if objs.get('progress') is not None:
+		snap['ProgressConfig'] = (id(objs['progress'].callable), dict(objs['progress'].kw))
+	for name, d in objs['pkw'].items():
+		snap[f'parse_kw dict {name}'] = {k: (v if isinstance(v, (str, int, type(None))) else id(v)) for k, v in d.items()}
+	for name, lab in objs['labels'].items():
+		snap[f'file_labels list {name}'] = list(lab)
+	snap['gambit.util.progress.REGISTRY'] = sorted((str(k), id(v)) for k, v in gp.REGISTRY.items())
+	snap['gambit.sigs.calc pool classes'] = (calc.ThreadPoolExecutor is ThreadPoolExecutor, calc.ProcessPoolExecutor is ProcessPoolExecutor)
+	snap['working directory'] = os.getcwd()
+	return snap
+
+
+def _seq_build(case):
+	from gambit.util import progress as gp
+	from gambit.sigs.calc import default_accumulator
+	import collections
+	objs = dict(lists={}, kspecs={}, execs={}, pkw={}, labels={}, accs={}, progress=None, keep=[])
+	shared = {}
+	for name, spec in case['lists'].items():
+		elems = []
+		own = {}
+		for f in spec['files']:
+			pool = shared if case.get('share_elems', True) else own
+			if f not in pool:
+				pool[f] = _seqfile(f)
+			elems.append(pool[f])
+		c = spec.get('container', 'list')
+		obj = FaultyList(elems) if c == 'seqclass' else tuple(elems) if c == 'tuple' else collections.deque(elems) if c == 'deque' else list(elems)
+		if c == 'seqclass':
+			collections.abc.Sequence.register(ListLike)
+		objs['lists'][name] = (obj, list(elems))
+	for name, v in (case.get('kspecs') or {'k0': None}).items():
+		objs['kspecs'][name] = _kspec(_ksl(v))
+	for name, spec in (case.get('execs') or {}).items():
+		w = spec.get('workers') or 2
+		inner = ThreadPoolExecutor(max_workers=w) if spec['type'] == 'threads' else ProcessPoolExecutor(max_workers=w) if spec['type'] == 'processes' else SyncExecutor()
+		objs['execs'][name] = SharedExecutor(inner)
+	objs['progress'] = gp.progress_config(_RecMeter, desc='verif', leave=False)
+	for name, spec in (case.get('pkw') or {}).items():
+		d = {}
+		if 'concurrency' in spec:
+			d['concurrency'] = None if spec['concurrency'] == 'none' else spec['concurrency']
+		if 'max_workers' in spec:
+			d['max_workers'] = spec['max_workers']
+		if spec.get('executor'):
+			d['executor'] = objs['execs'][spec['executor']]
+		objs['pkw'][name] = d
+	for name, ksname in (case.get('accs') or {}).items():
+		objs['accs'][name] = [default_accumulator(objs['kspecs'][ksname].k), ksname, set()]
+	return objs
+
+
+def _seq_want(fid, ks, auto, cur):
+	"""what the single-file call must give for this file NOW: ('ok', signature) | ('err', exception class).  Readable files:
+	the harness's own reference signature of the sequences it wrote; files the harness made unreadable: the implementation's
+	single-file call says whether (and how) they fail"""
+	t = _file_table()[fid]
+	if t.get('mutable'):
+		v = _mut_variant(fid, cur[fid])
+		return ('ok', _mut_ref(fid, cur[fid], ks)) if v['seqs'] is not None else ('err', v['exc'])
+	if t['ref'] is not None:
+		return ('ok', _ref(fid, ks))
+	return _single(fid, ks, auto)
+
+
+def _seq_fres(fid, ks, cur):
+	"""the model's per-file outcome, or None outside the model's domain"""
+	t = _file_table()[fid]
+	if t.get('mutable'):
+		v = _mut_variant(fid, cur[fid])
+		return [0, _mut_ref(fid, cur[fid], ks)] if v['seqs'] is not None else [1, v['code']]
+	if 'xbad' in t:
+		return None
+	return _model_fres(fid, ks)
+
+
+def _run_seq(case, n):
+	"""-> list of step records dict(i, op, what, bad (description | None), obs, want, model (request | None), exact, judged)"""
+	objs = _seq_build(case)
+	cur = {m: 0 for m in MUT}
+	for m in MUT:
+		_mut_write(m, 0)
+	helper = []
+
+	def get_helper():
+		if not helper:
+			helper.append(_Helper())
+		return helper[0]
+	recs = []
+	try:
+		for i, st in enumerate(case['steps']):
+			op = st['op']
+			if op == 'rewrite':
+				cur[st['file']] = st['v']
+				_mut_write(st['file'], st['v'])
+				recs.append(dict(i=i, op=op, what=f'{st["file"]} := variant {st["v"]}', bad=None, judged=False))
+				continue
+			before = _seq_snapshot(objs)
+			rec = _seq_step(case, st, objs, cur, get_helper, n, i)
+			rec.update(i=i, op=op, judged=True)
+			after = _seq_snapshot(objs)
+			changed = []
+			for key in before:
+				if before[key] != after[key]:
+					if key.startswith('parse_kw dict') and {k: v for k, v in after[key].items() if k != 'progress'} == before[key]:
+						rec['known_progress_key'] = True      # see repo_fixes/C13-parse-kw-not-modified.diff
+						continue
+					changed.append(f'{key}: {str(before[key])[:300]} -> {str(after[key])[:300]}')
+			if changed and rec['bad'] is None:
+				rec['bad'] = 'the call modified what belongs to the caller -- ' + '; '.join(changed[:3])
+			recs.append(rec)
+	finally:
+		for h in helper:
+			h.close()
+		for ex in objs['execs'].values():
+			try:
+				ex.inner.shutdown(wait=True)
+			except Exception:     # noqa
+				pass
+	return recs
+
+
+def _seq_step(case, st, objs, cur, get_helper, n, i):
+	import gambit.sigs.calc as calc
+	op = st['op']
+	where = st.get('thread', 'main')
+	ksname = st.get('ks', 'k0')
+	ks = _ksl((case.get('kspecs') or {'k0': None})[ksname])
+	kspec = objs['kspecs'][ksname]
+	if op == 'single':
+		fid = st['file']
+		acc = objs['accs'][st['acc']] if st.get('acc') else None
+		elem = _seqfile(fid)
+		obs, res = _in_thread(where, get_helper, lambda: _observe_keep(
+			lambda: [calc.calc_file_signature(kspec, elem, **({'accumulator': acc[0]} if acc else {}))]))
+		want = _seq_want(fid, ks, False, cur)
+		if acc is not None and want[0] == 'ok':
+			# documented: the caller's accumulator collects; the result is the signature of everything it holds
+			acc[2].update(want[1])
+			want = ('ok', sorted(acc[2]))
+		bad = _predicate([fid], obs, singles=[want])
+		if res is not None:
+			_scribble(res)
+		return dict(what=f'calc_file_signature({fid}{", accumulator=" + st["acc"] if acc else ""}) k-mer spec {ksname}', bad=bad, obs=obs, want=[want])
+	lname = st['list']
+	fids = case['lists'][lname]['files']
+	files = objs['lists'][lname][0]
+	auto = op in ('cli', 'dist', 'query')
+	# only the default k-mer spec for the entry points that compare distances (the reference database has that spec)
+	wants = [_seq_want(f, ks, auto, cur) for f in fids]
+	if op == 'calc':
+		mode = st.get('mode', 'seq')
+		fault = st.get('fault')
+		ex = objs['execs'][st['ex']] if mode == 'sup' else _OMIT
+		conc = {'seq': None, 'threads': 'threads', 'processes': 'processes', 'default': _OMIT, 'sup': _OMIT}[mode]
+		w = st.get('workers')
+		p = st.get('progress')
+		prog = _OMIT if p is None else objs['progress'] if p == 'shared' else _progress_arg(p)
+		may_refuse = False
+		if fault:
+			may_refuse = True
+			if fault['kind'] == 'container' and isinstance(files, FaultyList):
+				files.armed = fault['at']
+			elif fault['kind'] == 'submit' and mode == 'sup':
+				ex.arm(fault['at'])
+			elif fault['kind'] == 'meter':
+				prog = _faulty_meter(fault['at'])
+			else:
+				may_refuse = False
+
+		def call():
+			return _observe_keep(lambda: _call_calc(st.get('form', 'kw'), kspec, files, progress=prog, concurrency=conc,
+			                                        max_workers=_OMIT if w is None else w, executor=ex))
+		obs, res = _in_thread(where, get_helper, call)
+		if isinstance(files, FaultyList):
+			files.armed = None
+		if mode == 'sup':
+			ex.armed = None
+		bad = _predicate(fids, obs, may_refuse, singles=wants)
+		if res is not None:
+			_scribble(res)
+		if bad is None and st.get('twice') and not fault:
+			obs2, res2 = _in_thread(where, get_helper, call)
+			if res2 is not None:
+				_scribble(res2)
+			if obs2[0] != obs[0] or (obs[0] == 'done' and obs2[1] != obs[1]):
+				bad = f'the same call repeated on the same objects gave another result: first {str(obs)[:200]}, then {str(obs2)[:200]}'
+		fres = [_seq_fres(f, ks, cur) for f in fids]
+		model = None
+		if not fault and all(x is not None for x in fres):
+			c = {'seq': 0, 'threads': 1, 'processes': 2, 'default': 2}.get(mode, 1)
+			model = (1303, [c, mode == 'sup', [[j, x] for j, x in enumerate(fres)], list(range(len(fids)))])
+		nbad = sum(1 for x in wants if x[0] == 'err')
+		return dict(what=f'calc_file_signatures(list {lname} = {fids}, k-mer spec {ksname}, {mode}{" " + st["ex"] if mode == "sup" else ""}'
+		                 f'{", max_workers=" + str(w) if w is not None else ""}{", fault " + str(fault) if fault else ""}) in thread {where}',
+		            bad=bad, obs=obs, want=wants, model=model, exact=nbad <= 1, may_refuse=may_refuse)
+	if op == 'cli':
+		from gambit.sigs.base import load_signatures
+		out_dir = os.path.join(_S['dir'], 'cli-out')
+		os.makedirs(out_dir, exist_ok=True)
+		out = os.path.join(out_dir, f'seq-{os.getpid()}-{n}-{i}.gs')
+		if os.path.exists(out):
+			os.remove(out)
+		k, pre = (K, PREFIX) if ks is None else ks
+		args = ['signatures', 'create', '-k', str(k), '-p', pre, '-o', out, '--no-progress']
+		if st.get('cores') is not None:
+			args += ['-c', str(st['cores'])]
+		args += [_file_table()[f]['path'] for f in fids]
+		obs = _in_thread(where, get_helper, lambda: _invoke(args))
+		if obs is None:
+			def read():
+				with load_signatures(out) as sigs:
+					return [sigs[j] for j in range(len(sigs))]
+			obs = _observe(read)
+			if obs[0] == 'raised':
+				obs = ('output-unreadable', obs[1])
+		if os.path.exists(out):
+			os.remove(out)
+		return dict(what=f'gambit signatures create -c {st.get("cores")} on list {lname} = {fids}, k-mer spec {ksname}',
+		            bad=_predicate(fids, obs, singles=wants), obs=obs, want=wants)
+	singles = dict(zip(fids, wants))
+	if op in ('dist', 'query'):
+		obs = _in_thread(where, get_helper, lambda: _run_entry(dict(entry=op, files=fids, refs=None, cores=st.get('cores')), 100000 + 100 * n + i))
+		what = f'gambit {op}{" --square" if op == "dist" else ""} -c {st.get("cores")} on list {lname} = {fids}'
+		return dict(what=what, bad=_entry_bad(op, fids, None, singles, obs), obs=obs, want=wants)
+	if op == 'qparse':
+		from gambit.db import ReferenceDatabase
+		from gambit.query import query_parse
+		if 'db' not in _S:
+			_S['db'] = ReferenceDatabase.load_from_dir(_entry_db())
+		pkw = objs['pkw'][st['pkw']] if st.get('pkw') else None
+		kw = {}
+		if st.get('labels'):
+			kw['file_labels'] = objs['labels'].setdefault(lname, [f'label-{lname}-{j}' for j in range(len(fids))])
+
+		def call():
+			try:
+				with _Quiet():
+					res = query_parse(_S['db'], files, parse_kw=pkw, progress=None, **kw)
+				return ('rows', [[float(it.closest_genomes[0].distance)] for it in res.items], [it.closest_genomes[0].genome.key for it in res.items],
+				        [it.input.label for it in res.items])
+			except Exception as e:     # noqa
+				return ('failed', type(e).__name__)
+		# always in the main thread: the database object holds an SQLite session, which is bound to the thread that made it
+		obs = call()
+		bad = _entry_bad('qparse', fids, None, singles, obs)
+		if bad is None and obs[0] == 'rows' and st.get('labels') and list(obs[3]) != list(kw['file_labels']):
+			bad = f'result items carry the labels {obs[3]}, the caller gave {kw["file_labels"]}'
+		return dict(what=f'query_parse(list {lname} = {fids}, parse_kw={st.get("pkw")} {case.get("pkw", {}).get(st.get("pkw"))}, labels={bool(st.get("labels"))})',
+		            bad=bad, obs=obs, want=wants)
+	raise ValueError(op)
+
+
+def k_seq(ctx, cases):
+	t0 = time.time()
+	runs = []
+	for n, case in enumerate(cases):
+		recs = _run_seq(case, n)
+		if any(str(r.get('obs', ''))[:60].find('BrokenProcessPool') >= 0 for r in recs):
+			ctx.count('pool:broken-process-pool-retried')
+			recs = _run_seq(case, n)
+			if any(str(r.get('obs', ''))[:60].find('BrokenProcessPool') >= 0 for r in recs):
+				raise RuntimeError('process pool keeps breaking in this environment (worker processes are being killed)')
+		runs.append(recs)
+	where, reqs = [], []
+	for j, recs in enumerate(runs):
+		for r in recs:
+			if r.get('model') is not None:
+				where.append((j, r['i']))
+				reqs.append(r['model'])
+	answers = {}
+	if reqs and ctx.model_ok:
+		answers = dict(zip(where, ctx.model(reqs)))
+	failing = []
+	for j, case in enumerate(cases):
+		recs = runs[j]
+		judged = [r for r in recs if r['judged']]
+		lists_distinct = any(len({tuple(w[1]) for w in r.get('want', []) if w[0] == 'ok'}) >= 2 for r in judged)
+		ctx.case(case, nontrivial=len(judged) >= 2 and lists_distinct)
+		for r in judged:
+			ctx.count('seq:step-' + r['op'])
+			if r.get('known_progress_key'):
+				ctx.count('seq:skipped-known-query_parse-adds-progress-key-to-the-callers-parse_kw')
+			if r.get('may_refuse'):
+				ctx.count('seq:steps-with-a-failing-caller-object')
+			if r.get('obs', ('',))[0] in ('raised', 'failed'):
+				ctx.count('seq:steps-that-failed')
+		ctx.count('seq:steps-judged', len(judged))
+		first = next((r for r in recs if r['bad'] is not None), None)
+		trace = [f'step {r["i"]}: {r["what"]} -> ' + ('' if not r['judged'] else 'VIOLATED: ' + r['bad'] if r['bad'] else
+		         f'{r["obs"][0]}' + (f' ({len(r["obs"][1])} items)' if r['obs'][0] in ('done', 'rows') else f' {r["obs"][1]}')) for r in recs]
+		if first is not None:
+			failing.append((case, first, trace, len(recs)))
+			continue
+		for r in judged:
+			ans = answers.get((j, r['i']))
+			if ans is None:
+				continue
+			obs, mobs = r['obs'], _model_obs(ans, [])
+			if r['exact'] and obs[0] == 'raised' and mobs[0] == 'raised' and obs[1] != mobs[1]:
+				ctx.count('note:exception-class-differs-from-model')
+			if obs[0] != mobs[0] or (obs[0] == 'done' and obs[1] != mobs[1]):
+				ctx.broke('correspondence seq (model outcome != implementation outcome, property predicate holds)',
+				          f'case {case} step {r["i"]}: impl={str(obs)[:200]} model={str(mobs)[:200]}')
+	# The cases of a run share one process, so a violation may depend on state left by EARLIER cases and its replay
+	# (one case in a fresh process) may then show nothing.  The first few failing cases are therefore re-run alone in a
+	# fresh interpreter; the ones that fail there too are reported first (their replay is self-contained).
+	alone_of = {}
+	confirmed = 0
+	if not ctx.replaying:
+		# a case whose FIRST step already fails was most likely hit by state from earlier cases: try the others first
+		for x in sorted(range(len(failing)), key=lambda x: failing[x][1]['i'] == 0)[:6]:
+			if confirmed >= 2:
+				break
+			alone_of[x] = _seq_confirm(failing[x][0])
+			confirmed += bool(alone_of[x])
+	front = 0
+	for x, (case, first, trace, nsteps) in enumerate(failing):
+		alone = alone_of.get(x)
+		note = ''
+		if alone:
+			ctx.count('seq:violations-reproduced-alone-in-a-fresh-process')
+			note = ' [reproduced by this case alone in a fresh process]'
+		elif alone is not None:
+			ctx.count('seq:violations-not-reproduced-alone')
+			note = (' [NOT reproduced by this case alone in a fresh process: state left by earlier cases of the run is involved; '
+			        'the replay of this file alone may show nothing]')
+		ctx.violation('seq', case, f'step {first["i"]} of {nsteps} ({first["what"]}): {first["bad"]}{note}', impl=first.get('obs'),
+		              spec=[(w[0], w[1] if w[0] == 'err' else f'{len(w[1])} k-mers') for w in first.get('want', [])], steps=trace)
+		if alone:
+			# the runner reports the first three violations: self-contained ones go to the front
+			ctx.violations.insert(front, ctx.violations.pop())
+			front += 1
+	ctx.count('seq:wall-ms', int(1000 * (time.time() - t0)))
+
+
+def _seq_confirm(case):
+	"""run the case alone in a fresh interpreter (what a replay does) -> True if a step is violated there too, False if
+	not, None if the child could not be run"""
+	import json
+	import subprocess
+	import sys
+	path = os.path.join(_S['dir'], f'confirm-{os.getpid()}-{len(os.listdir(_S["dir"]))}.json')
+	with open(path, 'w') as f:
+		json.dump(case, f)
+	code = 'import sys\nfrom harness import c13\nc13._seq_child(sys.argv[1])\n'
+	try:
+		r = subprocess.run([sys.executable, '-c', code, path], capture_output=True, text=True, timeout=900)
+	except Exception:     # noqa
+		return None
+	for line in r.stdout.splitlines():
+		if line.startswith('SEQ-CHILD '):
+			return json.loads(line[10:])['bad'] is not None
+	return None
+
+
+def _seq_child(path):
+	import json
+	from vf import impl
+	impl.check_import()
+	_file_table()
+	with open(path) as f:
+		case = json.load(f)
+	recs = _run_seq(case, 0)
+	first = next((r for r in recs if r['bad'] is not None), None)
+	print('SEQ-CHILD ' + json.dumps(dict(bad=None if first is None else f'step {first["i"]}: {first["bad"]}')))
+
+
+KINDS = {'sched': k_sched, 'pool': k_pool, 'cli': k_cli, 'var': k_var, 'entry': k_entry, 'seq': k_seq}
 
 GOOD_SMALL = [f's{i}' for i in range(16)]
 
@@ -1584,6 +2269,9 @@ def generate(ctx):
 
 	# ==== 5. coverage-audit streams (see the table in the module docstring) ==============================
 	yield from _audit_streams(ctx, rng, skewed)
+
+	# ==== 6. statefulness and aliasing: scripts of calls over shared objects (table "state and aliasing") ==
+	yield from _seq_streams(ctx, rng)
 
 
 #: readable files by class
@@ -1798,3 +2486,240 @@ def _audit_streams(ctx, rng, skewed):
 				case['listfile'] = rng.choice(['abs', 'ldir'])
 			ctx.count('stream:entry-query-cli')
 		yield 'entry', case
+
+
+# ---- 6. statefulness and aliasing: scripts of calls over shared objects (kind seq) ---------------------------------
+SEQ_GOOD = GOOD_SMALL + ['z0', 'c0', 'k0', 'n0'] + [f'f{i}' for i in range(8)]
+#: unreadable files whose single-file call fails PART-WAY (after records were parsed / at the end of the stream), and early ones
+SEQ_BAD_LATE = ['late', 'badcrc', 'truncgz']
+SEQ_BAD = SEQ_BAD_LATE + ['binary', 'nohdr', 'missing']
+#: k >= 5: the command line refuses smaller k
+SEQ_KSPECS = [[12, 'ATG'], [17, 'AT'], [5, 'ATG'], [11, 'ATGAC'], [8, 'ATG'], [7, 'AT']]
+SEQ_CONTAINERS = ['list', 'list', 'tuple', 'deque', 'seqclass', 'seqclass']
+
+
+def _seq_streams(ctx, rng):
+	def some(pool, lo, hi):
+		n = rng.randint(lo, hi)
+		return [rng.choice(pool) for _ in range(n)] if n > len(pool) else rng.sample(pool, n)
+
+	def lst(fids, container=None):
+		return dict(files=list(fids), container=container or rng.choice(SEQ_CONTAINERS))
+
+	def with_bad(fids, bad=None):
+		"""an unreadable file in the middle of the batch"""
+		fids = list(fids)
+		fids.insert(rng.randint(1, max(1, len(fids) - 1)), bad or rng.choice(SEQ_BAD_LATE + SEQ_BAD))
+		return fids
+
+	def modes_of(case):
+		out = ['seq', 'seq', 'threads', 'processes', 'default'] + ['sup'] * (3 if case.get('execs') else 0)
+		return out
+
+	def calc(case, lname, ksname='k0', mode=None, **kw):
+		mode = mode or rng.choice(modes_of(case))
+		st = dict(op='calc', list=lname, ks=ksname, mode=mode)
+		if mode == 'sup':
+			st['ex'] = rng.choice(sorted(case['execs']))
+		elif mode in ('threads', 'processes') or rng.random() < 0.3:
+			st['workers'] = rng.choice([1, 1, 2, 3])
+		if rng.random() < 0.35:
+			st['thread'] = rng.choice(['helper', 'helper', 'fresh'])
+		if rng.random() < 0.3:
+			st['progress'] = rng.choice(['shared', 'shared', 'config', 'callable', 'none'])
+		st.update(kw)
+		return st
+
+	def execs():
+		r = rng.random()
+		if r < 0.45:
+			return {'X': dict(type='threads', workers=rng.choice([1, 1, 2, 3]))}
+		if r < 0.6:
+			return {'X': dict(type='sync')}
+		if r < 0.75:
+			return {'X': dict(type='processes', workers=rng.choice([1, 2]))}
+		if r < 0.85:
+			return {'X': dict(type='threads', workers=1), 'Y': dict(type='sync')}
+		return {}
+
+	def base_case():
+		a = some(SEQ_GOOD, 3, 5)
+		b = a[::-1][:rng.randint(1, len(a) - 1)] + some(SEQ_GOOD, 1, 3)      # other size, shared elements, other order
+		case = dict(lists={'A': lst(a), 'B': lst(b)}, kspecs={'k0': None, 'k1': rng.choice(SEQ_KSPECS)}, execs=execs(), steps=[])
+		if rng.random() < 0.3:
+			case['share_elems'] = False
+		return case, a, b
+
+	templates = []
+	nth = [ctx.seed]
+
+	def template(fn):
+		templates.append(fn)
+		return fn
+
+	@template
+	def failed_batch_then_good_batch():
+		"""(c) a batch that fails part-way, then good batches by the same thread / the same executor / the same objects"""
+		case, a, b = base_case()
+		case['lists']['C'] = lst(with_bad(a, rng.choice(SEQ_BAD_LATE)))
+		case['execs'] = {'X': dict(type=rng.choice(['threads', 'threads', 'sync']), workers=1)}
+		mode = rng.choice(['seq', 'sup', 'sup'])
+		th = rng.choice(['main', 'helper'])
+		ks = rng.choice(['k0', 'k0', 'k1'])
+		case['steps'] = [calc(case, 'C', ks, mode, thread=th), calc(case, 'A', ks, mode, thread=th), calc(case, 'B', ks, mode, thread=th),
+		                 calc(case, 'C', ks, mode, thread=th), calc(case, 'B', ks)]
+		return case
+
+	@template
+	def same_list_two_kspecs_both_orders():
+		"""(a) one file list used with two k-mer specs, in both orders"""
+		case, a, b = base_case()
+		m = rng.choice(['seq', 'threads', 'sup' if case['execs'] else 'seq'])
+		first = rng.choice(['k0', 'k1'])
+		other = 'k1' if first == 'k0' else 'k0'
+		case['steps'] = [calc(case, 'A', first, m), calc(case, 'A', other, m), calc(case, 'A', first), calc(case, 'B', other, m), calc(case, 'B', first, m)]
+		return case
+
+	@template
+	def same_kspec_and_executor_two_lists_both_orders():
+		"""(a) one KmerSpec / executor / progress configuration used with two lists of different size, in both orders"""
+		case, a, b = base_case()
+		if not case['execs']:
+			case['execs'] = {'X': dict(type='threads', workers=2)}
+		ks = rng.choice(['k0', 'k1'])
+		case['steps'] = [calc(case, x, ks, 'sup', progress='shared') for x in rng.choice([['A', 'B', 'A'], ['B', 'A', 'B'], ['A', 'B', 'B', 'A']])]
+		case['steps'].append(calc(case, 'A', ks, twice=True))
+		return case
+
+	@template
+	def file_rewritten_between_calls():
+		"""(a) one SequenceFile object / one path against files of different size and content, in both orders; incl. unreadable"""
+		case, a, b = base_case()
+		m0 = rng.choice(MUT)
+		a2 = list(a)
+		a2.insert(rng.randint(0, len(a2)), m0)
+		case['lists']['A'] = lst(a2)
+		case['lists']['B'] = lst(b + MUT)
+		vs = rng.sample(MUT_VARIANTS[1:], 2)
+		ks = rng.choice(['k0', 'k0', 'k1'])
+		m = rng.choice(['seq', 'threads', 'processes', 'sup' if case['execs'] else 'seq'])
+		case['steps'] = [calc(case, 'A', ks, m), dict(op='rewrite', file=m0, v=vs[0]), calc(case, 'A', ks, m), calc(case, 'B', ks),
+		                 dict(op='rewrite', file=m0, v=vs[1]), calc(case, 'A', ks, m), dict(op='rewrite', file=m0, v=0), calc(case, 'A', ks, m)]
+		return case
+
+	@template
+	def caller_object_fails_part_way():
+		"""(c) the caller's container / executor / progress meter raises in the middle of the batch, then the good call is repeated"""
+		case, a, b = base_case()
+		kind = rng.choice(['container', 'submit', 'meter'])
+		case['lists']['A'] = lst(a, 'seqclass')
+		case['execs'] = {'X': dict(type=rng.choice(['threads', 'sync', 'threads', 'processes']), workers=rng.choice([1, 2]))}
+		m = 'sup' if kind == 'submit' else rng.choice(['seq', 'sup', 'threads'])
+		at = rng.randint(0 if kind != 'meter' else 0, len(a) - 2)
+		th = rng.choice(['main', 'helper'])
+		case['steps'] = [calc(case, 'A', 'k0', m, thread=th, fault=dict(kind=kind, at=at)), calc(case, 'A', 'k0', m, thread=th), calc(case, 'B', 'k0', m, thread=th),
+		                 calc(case, 'B', 'k1', m, thread=th, fault=dict(kind=kind if kind != 'container' else 'meter', at=0)), calc(case, 'A', 'k1', m, thread=th)]
+		for st in case['steps']:
+			if st.get('fault') and st['fault']['kind'] == 'meter':
+				st.pop('progress', None)
+		return case
+
+	@template
+	def same_call_twice():
+		"""(d) the identical call twice on the same objects, every mode"""
+		case, a, b = base_case()
+		case['lists']['C'] = lst(with_bad(b))
+		case['steps'] = [calc(case, rng.choice('ABC'), rng.choice(['k0', 'k1']), twice=True) for _ in range(rng.randint(2, 4))]
+		return case
+
+	@template
+	def query_parse_shared_parse_kw():
+		"""(a)(b) one parse_kw dict / file_labels list / database object over several query_parse calls, lists of different size
+		in both orders; the concurrency named in the dict rotates so that every run has each value"""
+		case, a, b = base_case()
+		nth[0] += 1
+		case['kspecs'] = {'k0': None}
+		case['execs'] = {'X': dict(type='threads', workers=2)}
+		case['lists']['C'] = lst(with_bad(a))
+		case['pkw'] = {'D': dict(concurrency=['threads', 'none', 'processes'][nth[0] % 3], max_workers=rng.choice([1, 2])),
+		               'E': dict(executor='X')}
+		if rng.random() < 0.3:
+			del case['pkw']['D']['max_workers']
+		order = [['A', 'B', 'A'], ['B', 'A', 'B'], ['A', 'C', 'B', 'A'], ['C', 'A', 'A']][nth[0] % 4]
+		case['steps'] = [dict(op='qparse', list=x, pkw='D' if j < 2 else rng.choice(['D', 'E', None]), labels=rng.random() < 0.6) for j, x in enumerate(order)]
+		case['steps'].insert(rng.randint(1, len(case['steps'])), calc(case, rng.choice('AB'), 'k0'))
+		case['steps'].append(dict(op='qparse', list=rng.choice('AB'), pkw='E', labels=True))
+		return case
+
+	@template
+	def command_line_between_api_calls():
+		"""(a) the in-process command line commands interleaved with API calls (module-level state shared by both)"""
+		case, a, b = base_case()
+		case['lists']['C'] = lst(with_bad(a))
+		m0 = rng.choice(MUT)
+		case['lists']['B'] = lst(b + [m0])
+		steps = [dict(op='cli', list=rng.choice('AB'), ks=rng.choice(['k0', 'k1']), cores=rng.choice([None, 1, 2])),
+		         calc(case, rng.choice('AB'), rng.choice(['k0', 'k1'])),
+		         dict(op=rng.choice(['dist', 'query', 'cli']), list=rng.choice('ABC'), cores=rng.choice([None, 2])),
+		         dict(op='rewrite', file=m0, v=rng.choice(MUT_VARIANTS[1:5])),
+		         dict(op=rng.choice(['cli', 'dist']), list='B', cores=rng.choice([1, 2])),
+		         calc(case, 'B', 'k0')]
+		case['steps'] = steps
+		return case
+
+	@template
+	def single_file_calls_and_accumulators():
+		"""(a)(b) calc_file_signature alone and into a caller-supplied accumulator (documented to collect), between batches"""
+		case, a, b = base_case()
+		case['accs'] = {'a0': 'k0', 'a1': 'k1'}
+		case['lists']['C'] = lst(with_bad(b, rng.choice(SEQ_BAD_LATE)))
+		steps = [dict(op='single', file=rng.choice(a), ks='k0', acc='a0'), calc(case, 'A', 'k0', rng.choice(['seq', 'threads'])),
+		         dict(op='single', file=rng.choice(SEQ_BAD_LATE), ks=rng.choice(['k0', 'k1'])),
+		         dict(op='single', file=rng.choice(b), ks='k0', acc='a0'), dict(op='single', file=rng.choice(a), ks='k1', acc='a1'),
+		         calc(case, 'C', 'k1', 'seq'), dict(op='single', file=rng.choice(a), ks='k1'), calc(case, 'B', 'k1')]
+		for st in steps:
+			if rng.random() < 0.25:
+				st['thread'] = 'helper'
+		case['steps'] = steps
+		return case
+
+	def random_script():
+		case, a, b = base_case()
+		case['lists']['C'] = lst(with_bad(some(SEQ_GOOD, 2, 4)))
+		muts = []
+		if rng.random() < 0.5:
+			muts = rng.sample(MUT, rng.randint(1, 2))
+			case['lists']['B'] = lst(b + muts)
+		if rng.random() < 0.3:
+			case['pkw'] = {'D': dict(concurrency=rng.choice(['threads', 'none']))}
+		steps = []
+		for _ in range(rng.randint(2, 6)):
+			r = rng.random()
+			ln = rng.choice(['A', 'A', 'B', 'B', 'C'])
+			if r < 0.62:
+				st = calc(case, ln, rng.choice(['k0', 'k0', 'k1']))
+				if rng.random() < 0.2:
+					st['twice'] = True
+				if rng.random() < 0.12 and (st['mode'] == 'sup' or case['lists'][ln]['container'] == 'seqclass'):
+					st['fault'] = dict(kind='submit' if st['mode'] == 'sup' else 'container', at=rng.randint(0, 2))
+			elif r < 0.72 and muts:
+				st = dict(op='rewrite', file=rng.choice(muts), v=rng.choice(MUT_VARIANTS))
+			elif r < 0.8:
+				st = dict(op='single', file=rng.choice(a + b + SEQ_BAD_LATE), ks=rng.choice(['k0', 'k1']))
+			elif r < 0.87:
+				st = dict(op='cli', list=ln, ks=rng.choice(['k0', 'k1']), cores=rng.choice([None, 1, 2]))
+			elif r < 0.94:
+				st = dict(op='qparse', list=ln, pkw='D' if case.get('pkw') and rng.random() < 0.7 else None, labels=rng.random() < 0.5)
+			else:
+				st = dict(op=rng.choice(['dist', 'query']), list=ln, cores=rng.choice([None, 2]))
+			steps.append(st)
+		case['steps'] = steps
+		return case
+
+	for t in templates:
+		for _ in range(ctx.pick(3, 12)):
+			ctx.count('stream:seq-' + t.__name__.replace('_', '-'))
+			yield 'seq', t()
+	for _ in range(ctx.pick(45, 400)):
+		ctx.count('stream:seq-random-scripts')
+		yield 'seq', random_script()
